@@ -235,7 +235,7 @@ func checkFieldUseDiscipline(r *Reporter, p *Prog, pkg, typ string) {
 // at most one, and none of them sits in a loop. A scan under the read lock followed by a write
 // section, or a key snapshot followed by per-key locked reads, is not one step any more: writes
 // of other goroutines fall between the sections.
-func checkAtomicOperations(r *Reporter, p *Prog, rule, pkg, typ string) {
+func checkAtomicOperations(r *Reporter, p *Prog, rule, pkg, typ string, mutexField ...string) {
 	info := p.Pkg(pkg).TypesInfo
 	methods := p.Methods(pkg, typ)
 	type site struct {
@@ -269,7 +269,11 @@ func checkAtomicOperations(r *Reporter, p *Prog, rule, pkg, typ string) {
 					return false
 				case *ast.CallExpr:
 					if op, path := lockOp(info, x); op == "Lock" || op == "RLock" {
-						if path == recvPath || len(path) > len(recvPath) && path[:len(recvPath)+1] == recvPath+"." && !containsDotAfter(path, len(recvPath)+1, info, x) {
+						own := path == recvPath || len(path) > len(recvPath) && path[:len(recvPath)+1] == recvPath+"." && !containsDotAfter(path, len(recvPath)+1, info, x)
+						if len(mutexField) > 0 {
+							own = path == recvPath+"."+mutexField[0]
+						}
+						if own {
 							ownAcq[fd.Name.Name] = append(ownAcq[fd.Name.Name], site{p.posStr(x.Pos()), op, loop})
 						}
 						return true
